@@ -519,7 +519,112 @@ func Forall(bound []*Term, body *Term, pats ...*Term) *Term {
 // (j, x) with the multi-pattern (P, T_j...) where T_j is a small select/app term of G or B that
 // mentions j but no inner variable: nested quantifiers without a pattern on the outer one are
 // not instantiated reliably by E-matching.
+// absolutize: E-matching cannot instantiate `forall i :: ... (select a (+ base i)) ...` reliably (sums
+// are flattened, so a pattern `(+ base i)` rarely matches a ground index). When a bound integer
+// variable occurs in array indices only as `base + i` for one base, change variables to the absolute
+// index x = base + i: every `(+ base i)` becomes x and every other occurrence of i becomes `x - base`.
+// The quantifier is equivalent; its natural pattern is then `(select a x)`.
+func absolutize(bound []*Term, body *Term) *Term {
+	for _, bv := range bound {
+		if bv.S != IntSort {
+			continue
+		}
+		var base *Term
+		ok := true
+		found := false
+		seen := map[*Term]bool{}
+		var mentionsV func(t *Term) bool
+		memo := map[*Term]bool{}
+		mentionsV = func(t *Term) bool {
+			if v, done := memo[t]; done {
+				return v
+			}
+			r := t.Op == "var" && t.Name == bv.Name
+			for _, a := range t.Args {
+				if mentionsV(a) {
+					r = true
+				}
+			}
+			memo[t] = r
+			return r
+		}
+		Walk(body, seen, func(t *Term) {
+			if !ok || t.Op != "select" || len(t.Args) != 2 {
+				return
+			}
+			idx := t.Args[1]
+			if !mentionsV(idx) {
+				return
+			}
+			if idx.Op == "+" && len(idx.Args) == 2 && idx.Args[1].Op == "var" && idx.Args[1].Name == bv.Name && !mentionsV(idx.Args[0]) {
+				if base == nil {
+					base = idx.Args[0]
+				} else if !sameTerm(base, idx.Args[0]) {
+					ok = false
+				}
+				found = true
+				return
+			}
+			if idx.Op == "var" && idx.Name == bv.Name {
+				ok = false // already absolute somewhere: leave the quantifier alone
+				return
+			}
+			ok = false
+		})
+		if !ok || !found || base == nil {
+			continue
+		}
+		// base must not mention other bound variables of this quantifier
+		mb := false
+		for _, ob := range bound {
+			if ob != bv {
+				Walk(base, map[*Term]bool{}, func(t *Term) {
+					if t.Op == "var" && t.Name == ob.Name {
+						mb = true
+					}
+				})
+			}
+		}
+		if mb {
+			continue
+		}
+		x := bv // reuse the variable: it now stands for the absolute index
+		rel := IntOp("-", x, base)
+		var rw func(t *Term) *Term
+		cache := map[*Term]*Term{}
+		rw = func(t *Term) *Term {
+			if r, done := cache[t]; done {
+				return r
+			}
+			var r *Term
+			switch {
+			case t.Op == "+" && len(t.Args) == 2 && t.Args[1].Op == "var" && t.Args[1].Name == bv.Name && sameTerm(t.Args[0], base):
+				r = x
+			case t.Op == "var" && t.Name == bv.Name:
+				r = rel
+			case len(t.Args) == 0 || !mentionsV(t):
+				r = t
+			default:
+				na := make([]*Term, len(t.Args))
+				for i, a := range t.Args {
+					na[i] = rw(a)
+				}
+				c := *t
+				c.Args = na
+				c.key = ""
+				c.h = 0
+				r = &c
+			}
+			cache[t] = r
+			return r
+		}
+		body = rw(body)
+	}
+	return body
+}
+
 func flattenForall(bound []*Term, body *Term) *Term {
+	body = absolutize(bound, body)
 	guard := True
 	inner := body
 	if body.Op == "=>" {
